@@ -25,8 +25,8 @@ def run_check(prop: str, tier: str, src_root: str, write: bool = True, quiet: bo
     rep = None
     try:
         mod = importlib.import_module(f"qcolint.rules.{prop.lower()}")
-        model = Model(src_root)
         rep = Report(prop, tier, src_root, quiet=quiet, write=write)
+        model = Model(src_root)
         rep.analysed["modules"] = len(model.modules)
         rep.analysed["classes"] = sum(len(m.classes) for m in model.modules.values())
         mod.check(model, rep, tier)
